@@ -1028,18 +1028,18 @@ theorem C10_discard_then_fire_counterexample : ¬ C10_instance_iteration_stateme
   revert this
   decide
 
-/-- The decision itself (`!i.discardOverflow || !waiter.IsSlowDown(ctx)`, `IsSlowDown` = overdue ≥ 2 s unless the context
-is done): a request whose token was drawn is fired unless `discard_overflow` is on AND the instance is at least two seconds
+/-- The decision itself (`!i.discardOverflow || !waiter.IsSlowDown(ctx)` — the condition C03's translator reads as `.ifFire` —,
+`IsSlowDown` = overdue ≥ 2 s unless the context is done: regenerated `isSlowDownFacts`, `maxOverdueNanos`): a request whose token was drawn is fired unless `discard_overflow` is on AND the instance is at least two seconds
 behind AND its context is alive. In particular with `discard_overflow` off every such request is fired. -/
 theorem C10_fire_decision (it : Iter) :
     (it.fire = true ↔ (it.discardOverflow = false ∨ it.ctxDone = true ∨ it.overdueNanos < 2000000000)) ∧
     (it.discardOverflow = false → it.fire = true) ∧
-    (∀ d s : Bool, fireDecision d s = Gen.RespGuard.instanceShootCond d s) ∧
-    (maxOverdueNanos : Int) = Gen.RespGuard.maxOverdueNanos := by
+    Gen.GrpcStatus.isSlowDownFacts = ["done:false", "live:recv.overdueDuration >= MaxOverdueDuration"] ∧
+    maxOverdueNanos = Gen.GrpcStatus.maxOverdueNanos := by
   have h : it.fire = true ↔ (it.discardOverflow = false ∨ it.ctxDone = true ∨ it.overdueNanos < 2000000000) := by
     unfold Iter.fire fireDecision isSlowDown maxOverdueNanos
     cases it.discardOverflow <;> cases it.ctxDone <;> simp
-  exact ⟨h, fun hd => h.mpr (Or.inl hd), fireDecision_regenerated, maxOverdue_regenerated⟩
+  exact ⟨h, fun hd => h.mpr (Or.inl hd), Bridge.GrpcStatus.isSlowDown_eq.1, Bridge.GrpcStatus.isSlowDown_eq.2.symm⟩
 
 /-- OPTION DEFAULTS of the tag: every registered http-family gun (`http`, `http2`, `connect`, `http/scenario`,
 `http2/scenario`: regenerated `register.Gun` calls) decodes its config over a defaults function whose `auto-tag` section is
